@@ -10,7 +10,7 @@ QUICK_K = [1, 2, 3, 4, 5, 15, 16, 21, 31, 32]
 def run(ctx):
     tier, seed = ctx["tier"], ctx["seed"]
     ks = QUICK_K if tier == "quick" else list(range(1, 33))
-    names = [f"kmer_slide_k{k:02d}" for k in ks] + [f"kmer_inv_k{k:02d}" for k in ks] + ["kmer_vacuity_twin_must_fail"]
+    names = [f"kmer_slide_k{k:02d}" for k in ks] + [f"kmer_inv_k{k:02d}" for k in ks] + [f"kmer_restart_k{k:02d}" for k in ks] + ["kmer_vacuity_twin_must_fail"]
     res, out, wall, stats = kani.run_harnesses(names)
     viol, inconc = [], []
     if res.get("kmer_vacuity_twin_must_fail") not in ("fail", "fail?"):
@@ -22,7 +22,7 @@ def run(ctx):
             passed += 1
         elif r in ("fail", "fail?"):
             k = int(n[-2:])
-            fam = "slide" if "slide" in n else "inv"
+            fam = "slide" if "slide" in n else ("restart" if "restart" in n else "inv")
             if fam in done_fam:      # one counterexample per family (smallest k); the rest are listed
                 also_failed.append(n); continue
             done_fam.add(fam)
@@ -33,6 +33,9 @@ def run(ctx):
             flat = [b for v in vecs for b in v]
             if "slide" in n:
                 case, cmd = {"k": k, "seq": flat[:k + 2]}, "kmer_slide"
+            elif "restart" in n:
+                # kani::any() order in the harness: prefix [k+2 bytes], window [k bytes], p (usize)
+                case, cmd = {"k": k, "prefix": flat[:k + 2], "w": flat[k + 2:2 * k + 2], "p": int.from_bytes(bytes(flat[2 * k + 2:2 * k + 10]), "little")}, "kmer_restart"
             else:
                 case, cmd = {"k": k, "w": int.from_bytes(bytes(flat[:8]), "little")}, "kmer_inv"
             confirmed, codes = False, {}
@@ -42,7 +45,7 @@ def run(ctx):
                 if o.get("code", 0) != 0 or "panic" in o or "crash" in o:
                     confirmed = True
             path = replay.save_case("C20", n, cmd, case)
-            viol.append({"role": f"kmer:{'slide' if 'slide' in n else 'involution'}:relation_failed", "desc": f"{n} {case} native={codes}",
+            viol.append({"role": f"kmer:{'slide' if 'slide' in n else ('restart' if 'restart' in n else 'involution')}:relation_failed", "desc": f"{n} {case} native={codes}",
                          "replay": path, "confirmed": confirmed})
         else:
             inconc.append(f"{n}: Kani/CBMC did not return a verdict ({r})")
@@ -63,12 +66,23 @@ def run(ctx):
         "functions_encoded": ["Kmer::new", "Kmer::insert", "Kmer::insert_canonical", "Kmer::insert_direct", "Kmer::insert_rev_comp", "Kmer::data",
                               "Kmer::data_dir", "Kmer::data_rc", "Kmer::data_canonical", "Kmer::is_full", "Kmer::is_dir_oriented", "Kmer::get_symbol",
                               "Kmer::swap_dir_rc", "kmer::reverse_complement", "kmer::reverse_complement_kmer", "kmer::canonical_kmer"],
-        "bounds": {"k": ks, "sequence_length": "k+2 (every sequence over {0,1,2,3})", "unwind": "k+4 with unwinding assertions on"},
+        "bounds": {"k": ks, "sequence_length": "k+2 (every sequence over {0,1,2,3})", "restart": "every prefix of 0..k+2 symbols, reset, every window of k symbols, all three modes", "unwind": "k+4 with unwinding assertions on"},
         "outside": "sequences longer than k+2 (the sliding update only depends on the previous window: one extra insert is covered twice); symbolic k",
         "queries_discharged": stats.get("cbmc_checks", 0), "solver_time_s": stats.get("verification_time_s"), "kani_wall_s": round(wall, 1),
         "covers": [stats.get("covers_sat"), stats.get("covers_total")],
         "vacuity_twin": res.get("kmer_vacuity_twin_must_fail"), "also_failed": also_failed,
     }
+    # E2 part: window restart at non-ACGT symbols through the real enumerate_kmers (symbolic contigs with ambiguity codes)
+    from harness import C20e
+    r2 = C20e.run(ctx)
+    c2 = r2["coverage"]
+    viol += r2["violations"]; inconc += r2["inconclusive"]
+    cov["evaluations"] += c2["evaluations"]; cov["distinct_nontrivial"] += c2["distinct_nontrivial"]
+    cov["traces_validated_against_impl"] += c2["traces_validated_against_impl"]
+    cov["rule"] += "; E2 part: " + c2["rule"]
+    cov["samples"] += c2["samples"][:3]
+    cov["e2_restart_part"] = {k: c2[k] for k in ("engine", "mir_files", "functions_encoded", "std_models_used", "instances", "solver_queries", "solver_time_s", "exhaustive") if k in c2}
+    cov["functions_encoded"] = cov["functions_encoded"] + ["Kmer::reset", "Kmer::get_cur_size", "kmer_extract::enumerate_kmers (E2)"]
     return {"level": "model_checking", "coverage": cov, "violations": viol, "inconclusive": inconc,
-            "assumptions": ["CBMC/CaDiCaL and Kani's translation of MIR are sound", "input alphabet {0,1,2,3} (non-ACGT restart is checked by the E2 part / C10)",
+            "assumptions": ["CBMC/CaDiCaL and Kani's translation of MIR are sound", "Kani harnesses: input alphabet {0,1,2,3}; the restart harness models a non-ACGT symbol by Kmer::reset() after an arbitrary prefix (what enumerate_kmers and the segmenter do), the E2 part runs the real enumerate_kmers on contigs with codes 4 and 15",
                             "Kani's model of core (integer ops, array indexing) is faithful"]}
